@@ -92,11 +92,12 @@ def configs(ss, rng, n):
             kw = dict(years=yrs, prob=pr); meta = dict(kind='campaign', years=yrs, prob=pr, dt=dt)
         meta.update(eff=eff, elig=ek)
         cls = ss.campaign_vx if meta['kind'] == 'campaign' else ss.routine_vx
-        def mk(seed, cls=cls, kw=kw, eff=eff, ek=ek, dt=dt, y0=y0, y1=y1):
+        def mk(seed, cls=cls, kw=kw, eff=eff, ek=ek, dt=dt, y0=y0, y1=y1, pool=(i % 3 == 0)):
             iv = cls(product=ss.sir_vaccine(efficacy=eff), eligibility=elig_fns[ek], name='vx', **kw)
-            return ss.Sim(n_agents=120, diseases=ss.SIR(init_prev=0.05, beta=0.3), networks=ss.RandomNet(), interventions=iv, demographics=dem(),
+            nets = ss.MixingPool(beta=ss.beta(0.6), contacts=ss.poisson(3)) if pool else ss.RandomNet()      # every third configuration transmits through a mixing pool
+            return ss.Sim(n_agents=120, diseases=ss.SIR(init_prev=0.05, beta=0.3), networks=nets, interventions=iv, demographics=dem(),
                           start=y0, stop=y1, dt=dt, rand_seed=seed, verbose=0)
-        out.append((f'vx:{meta["kind"]}:form{form}:dt{dt:g}:{ek}:eff{eff:g}', mk, {'vx': meta}))
+        out.append((f'vx:{meta["kind"]}:form{form}:dt{dt:g}:{ek}:eff{eff:g}' + (':pool' if i % 3 == 0 else ''), mk, {'vx': meta}))
     # screening + capacity-limited treatment on SIS
     for j in range(max(2, n // 3)):
         dt, y0, y1 = grid[j % 3]
@@ -118,6 +119,12 @@ def configs(ss, rng, n):
                           start=y0, stop=y1, dt=dt, rand_seed=seed, verbose=0)
         out.append((f'screen+treat:{"campaign" if camp else "routine"}:dt{dt:g}:cap{cap}:{elig_t}', mk,
                     {'scr': smeta, 'trt': dict(kind='treat', cap=cap, prob=tpr, eff=teff), 'tri': dict(kind='triage')}))
+    # a clinic whose queue backs up: waiting agents are re-queued every step and recover on their own before they reach the front
+    def mk_queue(seed):
+        trt = ss.treat_num(product=ss.Tx(tx_table('sis', 1.0)), prob=1.0, max_capacity=5, eligibility=lambda sim: sim.diseases.sis.infected.uids, name='trt')
+        return ss.Sim(n_agents=100, diseases=ss.SIS(beta=ss.beta(0.0), init_prev=0.23, dur_inf=ss.constant(v=3.5), waning=ss.rate(0.0)), networks=ss.RandomNet(n_contacts=2), interventions=[trt],
+                      start=2000, dur=8, dt=1, rand_seed=seed, verbose=0)
+    out.append(('treat:queue-backs-up-then-recovers', mk_queue, {'trt': dict(kind='treat', cap=5, prob=1.0, eff=1.0)}))
     # syphilis screening and treatment (the built-in products)
     def mk_syph(seed):
         scr = ss.syph_screening(product='rpr', prob=0.9, eligibility=lambda sim: sim.networks.mfnet.active(sim.people), start_year=2005, name='scr')
